@@ -129,11 +129,15 @@ func (c *Ctx) hashPreimage() {
 	}
 	// the loop level variable: phi named "i" compared with level
 	var lvl *ssa.Phi
-	allInstrs(f, func(_ *ssa.BasicBlock, in ssa.Instruction) {
-		if ph, ok := in.(*ssa.Phi); ok && ph.Comment == "i" {
-			lvl = ph
-		}
-	})
+	// the level variable is what IsSignificant is asked about
+	for _, cl := range callsTo(f, bocPath+".levelMask.IsSignificant") {
+		derivesFrom(cl.Call.Args[1], func(v ssa.Value) bool {
+			if ph, ok := v.(*ssa.Phi); ok && inLoop(ph.Block()) && lvl == nil {
+				lvl = ph
+			}
+			return false
+		}, false)
+	}
 	if lvl == nil {
 		c.bad(R, "level loop", f.Pos(), "per-level loop variable not found")
 		return
@@ -278,7 +282,12 @@ func (c *Ctx) hashDepthLimit() {
 			if !ok || bo.Op != token.ADD {
 				return
 			}
-			if ph, ok := bo.X.(*ssa.Phi); ok && ph.Comment == "depth" {
+			// the running depth is the value the limit guard compares with 1024
+			var guarded ssa.Value
+			if gb, ok := guard.Cond.(*ssa.BinOp); ok {
+				guarded = stripConv(gb.X)
+			}
+			if ph, ok := bo.X.(*ssa.Phi); ok && ssa.Value(ph) == guarded {
 				if k, ok := constInt(bo.Y); ok && k == 1 {
 					if !edgeDominates(f, edge{guard.Block(), 1}, b) {
 						okInc = false
